@@ -238,7 +238,11 @@ CLAIMS = {
         'its header, count>0 decides yield and decrement (R8.1, R8.2). Around the loops: strict reaches every callee that has '
         'it and is stored unchanged (R8.3); the views sort both inputs alike, ascending, by the whole row, exactly when '
         'presorted is false (R8.4); diff / recorddiff return (complement(b, a), complement(a, b)) (R8.5); recordcomplement '
-        'cuts b by the field names of a (R8.6); rows are compared as tuples and ordered through Comparable (R8.7).',
+        'cuts b by the field names of a (R8.6); rows are compared as tuples and ordered through Comparable, whose class-level table '
+        'and type families are decided again here (R8.7); the obligations of C05 about petl.transform.sorts are decided again '
+        '(R8.8). An early exit of a probe loop is decided with a count-budget value: sound on sum(counts) kept in step, a '
+        'violation on the number of distinct rows. A sort skipped on a condition about the input that never reads `reverse` is '
+        'a violation (R8.4).',
    ref='DESIGN.md §4 C08',
    note='necessary conditions only: the step tables are derived by hand from the multiset definitions (trusted); that the table '
         'implies the algebra for every input rests on Comparable being a total preorder consistent with == (C04) and on the '
@@ -258,7 +262,9 @@ CLAIMS = {
         'are all paths of the product). isunique answers False exactly at the first value seen before and remembers values '
         'themselves (R10.2); key / count / missing / include / exclude reach views and iterators unchanged (R10.3); the views '
         'sort by the operator\'s key, ascending, exactly when presorted is false (R10.4); the conflict test flags a pair '
-        'exactly when a compared field differs and neither value is `missing` (R10.5).',
+        'exactly when a compared field differs and neither value is `missing` (R10.5); key selectors are never tested for truth, as '
+        'parameters or view attributes (R10.6); the Comparable table / type families (R10.7) and the obligations of C05 about the '
+        'sort (R10.8) are decided again here.',
    ref='DESIGN.md §4 C10',
    note='the specification transducers are written by hand (trusted); counts are compared up to "three or more"; conflicts is '
         'specified as the pairwise detector the property describes ("only rows of groups that disagree"), not as a group-level '
@@ -378,6 +384,16 @@ EXTRA_G = {
  'C12': 'The record handed to a user callable does not wrap a container the operator resizes under the names of the unchanged header (R12.8).',
  'C19': 'A policy handler narrowed to fewer exception classes than Exception is a violation; errorvalue reaches the view unchanged (R19.2).',
 }
+EXTRA_N = {
+ 'C01': 'An iterator served from the chunk files of a sort holds the owner objects in its own frame (R1.8: C18 R18.3 / R18.4 imported).',
+ 'C02': 'A parameter walked in lockstep with the table iterator (zip / zip_longest) is streamed as well: no truth test, no eager consumer (R2.2).',
+ 'C04': 'The type families the Comparable table is evaluated with are read off petl.compat (R4.6).',
+ 'C09': 'rowgroupby is decided per path on the returned expression with the locals written in place (R9.2).',
+ 'C11': 'A sort that is skipped on a condition about the input although presorted is false is reported (undecided: the condition cannot be verified; R11.3).',
+ 'C12': 'No last-wins map from field names to positions is built from the header (R12.19).',
+ 'C13': 'The reference values of a selector reach the predicate as the caller gave them (R13.12).',
+ 'C20': 'The key-less simple aggregate yields its row on a header-only table (R20.11: C09 R9.6 imported).',
+}
 ROBUST = (' All rules are evaluated on functions in expanded form (bounded inlining of helpers unknown to the rules) and, where '
           'they evaluate decision ladders, on canonical tests and effect sequences rather than statement texts (DESIGN.md §9).')
 for _p, _t in EXTRA_D.items():
@@ -393,6 +409,8 @@ for _p, _t in EXTRA_E.items():
 for _p, _t in EXTRA_F.items():
     CLAIMS[_p]['text'] = CLAIMS[_p]['text'] + ' ' + _t
 for _p, _t in EXTRA_G.items():
+    CLAIMS[_p]['text'] = CLAIMS[_p]['text'] + ' ' + _t
+for _p, _t in EXTRA_N.items():
     CLAIMS[_p]['text'] = CLAIMS[_p]['text'] + ' ' + _t
 
 PENDING = 'check not yet implemented in this revision (work in progress; see DESIGN.md for the planned rules)'
